@@ -18,3 +18,8 @@ Proof. exact NucleoFacts.C19_idle. Qed.
 
 Print Assumptions C19_unchanged.
 Print Assumptions C19_idle.
+
+(* non-vacuity (Proofs/ExampleFacts.v, by computation): three concrete instances of tick_returns: (changed,running) = (false,false) with four matches, (true,false) with g_pub_begin = 5, (false,true) while a second run holds the lock *)
+From NV Require Proofs.ExampleFacts.
+Definition C19_nonvacuous := ExampleFacts.C19_nonvacuous.
+Print Assumptions C19_nonvacuous.
